@@ -133,6 +133,8 @@ func runC09(c *Ctx, r *Report) {
 	c09r1(c, r)
 	defer c15r7(c, r) // a reload restarts the indices: the selection of the old list must not carry over
 	defer c09r7(c, r)
+	defer c09r8(c, r)
+	defer c07r6(c, r) // an action list stops at the action that ends the session
 
 	// ---------------- R2 ----------------
 	r.rule("C09-R2", "E (exhaustiveness)", "P1",
